@@ -62,6 +62,8 @@ pub enum Op {
     FromVec { dst: usize, vals: Vec<MVal> },
     /// script literal `[a, b, c]`
     Lit3 { dst: usize, vals: Vec<MVal> },
+    /// script literal `[a, b, c, a, b, c, a, b, c]` (crosses two growth boundaries)
+    Lit9 { dst: usize, vals: Vec<MVal> },
     CloneH { src: usize, dst: usize },
     DropH { h: usize },
     Push { h: usize, v: MVal },
@@ -155,6 +157,15 @@ impl SeqModel {
             }
             Op::FromVec { dst, vals } | Op::Lit3 { dst, vals } => {
                 let id = self.heap.new_list(vals.clone());
+                self.slots[*dst] = Some(id);
+                Obs::Unit
+            }
+            Op::Lit9 { dst, vals } => {
+                let mut v = Vec::new();
+                for _ in 0..3 {
+                    v.extend(vals.iter().cloned());
+                }
+                let id = self.heap.new_list(v);
                 self.slots[*dst] = Some(id);
                 Obs::Unit
             }
@@ -326,6 +337,8 @@ pub enum LOp {
     Eq { a: ListId, b: ListId, ne: bool },
     ForCount { l: ListId },
     ForSum { l: ListId },
+    /// `into_iter().collect()`: a sequence of atomic `get(i)`, observed values in order
+    IterVals { l: ListId },
     /// no effect on the model (handle clone/drop)
     Nop,
 }
@@ -394,6 +407,22 @@ fn steps(ev: &Event, sub: &Sub, heap: &Heap) -> Vec<(Sub, Option<Heap>)> {
         (LOp::ReadAll { l }, Sub::Fresh) => {
             let ok = matches!(&ev.obs, Obs::Vals(v) if snapshot_eq(heap, v, *l));
             done(ok, &mut out)
+        }
+        (LOp::IterVals { .. }, Sub::Fresh) => {
+            return steps(ev, &Sub::Loop(0, 0), heap);
+        }
+        (LOp::IterVals { l }, Sub::Loop(i, _)) => {
+            let Obs::Vals(o) = &ev.obs else { return out };
+            match heap.lists[*l].get(*i as usize) {
+                Some(m) => {
+                    if let Some(x) = o.get(*i as usize) {
+                        if heap.val_eq(x, m) {
+                            out.push((Sub::Loop(i + 1, 0), None));
+                        }
+                    }
+                }
+                None => done(o.len() as u64 == *i, &mut out),
+            }
         }
         (LOp::ForCount { .. }, Sub::Fresh) | (LOp::ForSum { .. }, Sub::Fresh) => {
             return steps(ev, &Sub::Loop(0, 0), heap);
